@@ -33,6 +33,8 @@ const (
 	writeTimeout = 1500 * time.Millisecond
 	closeTimeout = 5 * time.Second
 	linkInterval = 3 * time.Second
+
+	staleLinktestSys = 0x51A1E001 // system bytes of the Linktest.req sent while a write is blocked
 )
 
 type scen struct {
@@ -156,6 +158,12 @@ func run(t *testing.T, sc scen, onLeak func(string)) (fail *failure, outcome str
 		for i := 0; i < sc.Async; i++ {
 			send(1, "async", i)
 		}
+		if sc.Blocked {
+			// a control response accepted for sending in generation 1: the library's answer to
+			// this Linktest.req queues behind the blocked write
+			_, _ = gen1.Write(peer.Ctrl(peer.SLinktestReq, 0xFFFF, 0, 0, staleLinktestSys).Bytes())
+			w.Settle()
+		}
 		if !sc.Blocked {
 			w.Read() // async frames reach the generation-1 peer: that is fine
 		}
@@ -245,6 +253,9 @@ func run(t *testing.T, sc scen, onLeak func(string)) (fail *failure, outcome str
 					if f.SType == peer.SData && !strings.HasPrefix(bodyToken(f), "g2-") && f.B2&0x7F != 9 {
 						bad("stale-frame:"+sc.End, "a later generation's socket carried data frame %q accepted for sending in generation 1 (%v)", bodyToken(f), f)
 					}
+					if f.SType == peer.SLinktestRsp && f.Sys == staleLinktestSys {
+						bad("stale-control-frame:"+sc.End, "a later generation's socket carried the Linktest.rsp to a Linktest.req received in generation 1 (%v)", f)
+					}
 				}
 			}
 		}
@@ -279,6 +290,9 @@ func run(t *testing.T, sc scen, onLeak func(string)) (fail *failure, outcome str
 					if tk := bodyToken(f); !strings.HasPrefix(tk, "g2-") && !(f.B2&0x7F == 9) {
 						bad("stale-frame:"+sc.End, "generation 2's socket carried data frame %q accepted for sending in generation 1 (%v)", tk, f)
 					}
+				}
+				if f.SType == peer.SLinktestRsp && f.Sys == staleLinktestSys {
+					bad("stale-control-frame:"+sc.End, "generation 2's socket carried the Linktest.rsp to a Linktest.req received in generation 1 (%v)", f)
 				}
 			}
 			return fs
